@@ -321,6 +321,9 @@ def judge_copy(ctx, dec, value, label):
                            f'(more than {COPY_A}*len+{COPY_B}): not proportional to the input', {'decoder': dec, 'class': label, 'len': len(buf), 'copied': cls.copied})
 
 
+ctx_wide = [0]
+
+
 def corpus(ctx, rng):
     """Valid packets: [(decoder, wire)]"""
     out = []
@@ -353,6 +356,15 @@ def corpus(ctx, rng):
                                                  sig_info_value=rng.choice([None, rc.make_siginfo_value(0, nonce=1, time=2, seq=3),
                                                                             rc.make_siginfo_value(4, key_name=gen.simple_name(rng))]),
                                                  sig_value=gen.rand_bytes(rng, 32))[0]))
+    # the same shapes with NonNegativeIntegers in a wider legal width (2, 4 or 8 octets where 1 would do): still well-formed
+    for i in range(ctx.n(9, 300)):
+        with rc.widened(1 + i % 3):
+            nm = gen.name(rng, 1, 4)
+            out.append(('data', rc.make_data(nm, content=gen.rand_bytes(rng, 5), content_type=rng.choice([None, 0, 2]), freshness=rng.choice([None, 1, 300]),
+                                             sig_type=rng.choice([0, 1, 3, 200]), key_name=rng.choice([None, gen.simple_name(rng)]), sig_value=gen.rand_bytes(rng, 32))))
+            out.append(('interest', rc.make_interest(gen.simple_name(rng), nonce=rng.choice([None, 5]), lifetime=rng.choice([None, 0, 7, 4000]), app_param=rng.choice([None, b'abc']),
+                                                     sig_info_value=rng.choice([None, rc.make_siginfo_value(0, nonce=1, time=2, seq=3)]), sig_value=gen.rand_bytes(rng, 32))[0]))
+        ctx_wide[0] += 2
     base = [w for d, w in out]
     for _ in range(ctx.n(14, 800)):
         frag = rng.choice(base + [None, b''])
